@@ -737,6 +737,8 @@ type pbEnum struct {
 	Deser [][2]string      `json:"deser"` // number, spelling
 	Zero  string           `json:"zero"`
 	Paths []string         `json:"paths"`
+	// spellings that only the deserializer knows (pbCliSerialize loses them): not used by the random generator
+	Rescued []string `json:"rescued"`
 	names map[int32]string // protobuf value names
 }
 
@@ -995,6 +997,9 @@ func pbCliTable(direct *pbDirectRes) ([]pbRow, map[string]*pbEnum) {
 					}
 				}
 				e.Ser = append(e.Ser, [2]string{pv.Go.(string), num})
+				if rec.Rescued != "" {
+					e.Rescued = append(e.Rescued, pv.Go.(string))
+				}
 				enums[l.SP] = e
 			}
 			if len(rec.Pb) > 0 && row.PbPath == "" {
@@ -1004,7 +1009,15 @@ func pbCliTable(direct *pbDirectRes) ([]pbRow, map[string]*pbEnum) {
 			row.Probes = append(row.Probes, rec)
 		}
 		if row.Fate == "dropped" && len(direct.landing[l.SP]) == 0 && row.PbPath == "" {
+			row.Fate = "noschema"
 			row.Note = "no protobuf leaf is produced from or deserialised onto this leaf: the schema cannot carry it"
+		}
+		if row.Fate == "moved" {
+			for _, p := range row.Probes {
+				if p.Fate == "moved" {
+					row.Moved = p.Where
+				}
+			}
 		}
 		rows = append(rows, row)
 	}
@@ -1316,8 +1329,11 @@ func pbRandFill(c *pbRandCfg, sp string, v reflect.Value, force bool) {
 		if !take() {
 			return
 		}
-		if sps, ok := c.enums[sp]; ok && len(sps) > 0 {
-			v.SetString(sps[c.r.Intn(len(sps))])
+		if sps, ok := c.enums[sp]; ok {
+			// an enum field: a spelling of its domain that the serializer carries, or nothing
+			if len(sps) > 0 {
+				v.SetString(sps[c.r.Intn(len(sps))])
+			}
 		} else {
 			v.SetString(pbRandWords[c.r.Intn(len(pbRandWords))] + strconv.Itoa(c.r.Intn(1000)))
 		}
@@ -1492,6 +1508,9 @@ func pbEnumList(m map[string]*pbEnum) []*pbEnum {
 		if e.Deser == nil {
 			e.Deser = [][2]string{}
 		}
+		if e.Rescued == nil {
+			e.Rescued = []string{}
+		}
 		res = append(res, &e)
 	}
 	return res
@@ -1500,8 +1519,13 @@ func pbEnumList(m map[string]*pbEnum) []*pbEnum {
 func pbSpellMap(es []*pbEnum, known bool) map[string][]string {
 	res := map[string][]string{}
 	for _, e := range es {
+		res[e.Paths[0]] = []string{}
 		for _, s := range e.Ser {
-			if s[1] != "0" || !known {
+			resc := false
+			for _, r := range e.Rescued {
+				resc = resc || r == s[0]
+			}
+			if (s[1] != "0" || !known) && !resc {
 				res[e.Paths[0]] = append(res[e.Paths[0]], s[0])
 			}
 		}
